@@ -217,7 +217,7 @@ func (in *Interp) exec(fr *frame, ins ssa.Instruction) {
 			conds[i] = Eq(pick, BV(8, int64(i)))
 		}
 		k := 0
-		if len(it.left) > 1 {
+		if len(it.left) > 1 && !in.fixedMapOrder {
 			k = in.choose(conds)
 		}
 		e := it.left[k]
